@@ -180,7 +180,12 @@ class Repo:
                 # property setters etc. share a name: keep first getter, store others suffixed
                 key = st.name
                 if key in ci.methods:
-                    key = f"{st.name}@{len([k for k in ci.methods if k.split('@')[0] == st.name])}"
+                    alt = f"{st.name}@{len([k for k in ci.methods if k.split('@')[0] == st.name])}"
+                    prev = ci.methods[key]
+                    if any("overload" in ast.unparse(d) for d in prev.node.decorator_list):
+                        ci.methods[alt] = prev  # typing overload stub: the implementation takes the plain name
+                    else:
+                        key = alt
                 ci.methods[key] = FuncInfo(st.name, f"{ci.name}.{st.name}", mod, ci, st)
             elif isinstance(st, ast.Assign):
                 for t in st.targets:
